@@ -1,14 +1,15 @@
 SPECIFICATION Spec
 CONSTANTS
-  Programs <- AllPrograms
-  QuerySeqs <- QS3
-  Permute = FALSE
-  CheckOnTableHit = FALSE
-  RepairFalseResult = FALSE
+  Programs <- FamilyNested
+  QuerySeqs <- QS2
+  Permute = TRUE
+  CheckOnTableHit = TRUE
+  RepairFalseResult = TRUE
 VIEW view
 INVARIANT NoDanglingMessages
 INVARIANT NoError
 INVARIANT NegCycleOnlyWhenCyclic
+INVARIANT AnsweredOnlyWhenDefined
 INVARIANT StackEmpty
 INVARIANT TableSound
 INVARIANT ResultCorrect
